@@ -15,11 +15,18 @@ ASSUME Shape2 == ~PrettyShape(Line1, [M1 EXCEPT !.type = "info"])
 ASSUME Shape3 == ~PrettyShape(Line1, [M1 EXCEPT !.cat = <<120>>])
 
 K0 == [rules |-> << [pat |-> <<110,101,116>>, typed |-> "", on |-> FALSE] >>, rx |-> [kind |-> "none", lit |-> <<>>],
-       fmt |-> "pretty", stdout |-> FALSE, stderr |-> TRUE, platform |-> TRUE, file |-> FALSE]
+       fmt |-> "pretty", stdout |-> FALSE, stderr |-> TRUE, platform |-> TRUE, file |-> FALSE,
+       colorOut |-> FALSE, colorErr |-> FALSE, ttyOut |-> FALSE, ttyErr |-> FALSE]
 ASSUME Filtered == IniObligations(K0, <<M1>>, [stdout |-> <<>>, stderr |-> <<>>, file |-> <<>>, fileExists |-> FALSE])
 ASSUME Twice == IniObligations([K0 EXCEPT !.rules = <<>>], <<M1>>, [stdout |-> <<>>, stderr |-> <<Line1, Line1>>, file |-> <<>>, fileExists |-> FALSE])
 ASSUME OnceIsNotEnough == ~IniObligations([K0 EXCEPT !.rules = <<>>], <<M1>>, [stdout |-> <<>>, stderr |-> <<Line1>>, file |-> <<>>, fileExists |-> FALSE])
 ASSUME Leak == ~IniObligations([K0 EXCEPT !.rules = <<>>], <<M1>>, [stdout |-> <<Line1>>, stderr |-> <<Line1, Line1>>, file |-> <<>>, fileExists |-> FALSE])
+
+ColLine1 == <<27, 91, 51, 51, 109>> \o Line1 \o <<27, 91, 48, 109>>
+KC == [K0 EXCEPT !.rules = <<>>, !.colorErr = TRUE, !.ttyErr = TRUE]
+ASSUME Coloured == IniObligations(KC, <<M1>>, [stdout |-> <<>>, stderr |-> <<ColLine1, Line1>>, file |-> <<>>, fileExists |-> FALSE])
+ASSUME ColourMissing == ~IniObligations(KC, <<M1>>, [stdout |-> <<>>, stderr |-> <<Line1, Line1>>, file |-> <<>>, fileExists |-> FALSE])
+ASSUME ColourUnwanted == ~IniObligations([KC EXCEPT !.ttyErr = FALSE], <<M1>>, [stdout |-> <<>>, stderr |-> <<ColLine1, Line1>>, file |-> <<>>, fileExists |-> FALSE])
 
 MCInit == IInit
 MCNext == UNCHANGED ivars
